@@ -63,6 +63,15 @@ def run(ctx):
         add("set f to transform return " + "(" * n + "1" + ")" * n + " end find all 'a'", "deep nesting")
         add("set f to transform return " + "not " * n + "true end find all 'a'", "deep nesting")
         add("find all @/" + "(" * n + "a" + ")" * n + "/", "deep nesting")
+        m = min(n, 60)
+        add("find all " + "(" * m + "'a'" + " or 'b')" * m, "deep nesting with alternation")          # ((('a' or 'b') or 'b') ...
+        add("find all " + "('a' or " * m + "'b'" + ")" * m, "deep nesting with alternation")
+        add("find all " + "(" * m + "'a'" + " = x%d)" * 1 % 0 + ")" * (m - 1), "deep nesting with alternation")
+        add("find all @/" + "(" * m + "a" + "|b)" * m + "/", "deep nesting with alternation")
+        add("find all @/" + "(?:" * m + "a" + ")*" * m + "/", "deep nesting with alternation")
+        add("set f to transform return " + "(" * m + "1" + " + 2)" * m + " end find all 'a'", "deep nesting with alternation")
+        add("set f to transform " + "if true then " * m + "return 'a' " + "end " * m + "end find all 'a'", "deep nesting with alternation")
+        add("find all " + "{" * 20 + "'a'" + "".join("} = s%d " % i for i in range(20)), "deep nesting with alternation")
     stats = {}
     outs = []
     B = 4000
